@@ -358,7 +358,6 @@ func (m *modDir) buildDriver(pkgs []*GenPkg, out string, flags ...string) (strin
 	return bin, nil
 }
 
-
 // importSets builds separate-mode import sets: one library package and application
 // packages that use its enum, struct, message and union in the given shapes. Names start at
 // n0+1; the files are written into the module so that Generate can resolve the imports.
@@ -366,7 +365,9 @@ func importSets(m *modDir, prefix string, n0 int, appOpts []Opts) []*GenPkg {
 	var out []*GenPkg
 	n := n0
 	fd := func(name string, t schema.Type) schema.Field { return schema.Field{Name: name, Type: t} }
-	mfd := func(i int, name string, t schema.Type) schema.Field { return schema.Field{Name: name, Type: t, Index: i} }
+	mfd := func(i int, name string, t schema.Type) schema.Field {
+		return schema.Field{Name: name, Type: t, Index: i}
+	}
 	libDefs := func() []*schema.Def {
 		return []*schema.Def{
 			{Kind: "enum", Name: "LibKind", Base: "uint16", Options: []schema.Option{{Name: "OptA", Lit: "1"}, {Name: "OptB", Lit: "513"}}},
